@@ -390,17 +390,27 @@ def trlog2(T, check=True, twist=False):
             else:
                 return np.zeros((3, 3))
         else:
-            if twist:
-                return base.vexa(scipy.linalg.logm(T))
+            # closed form, the general matrix logarithm is complex for a rotation by pi
+            theta = math.atan2(T[1, 0], T[0, 0])
+            t = T[:2, 2]
+            if theta == 0:
+                v = t
             else:
-                return scipy.linalg.logm(T)
+                A = math.sin(theta) / theta
+                B = 2 * math.sin(theta / 2) ** 2 / theta
+                v = np.array([[A, B], [-B, A]]) @ t / (A * A + B * B)
+            if twist:
+                return np.r_[v, theta]
+            else:
+                return base.Ab2M(base.skew(theta), v)
 
     elif isrot2(T, check=check):
         # SO(2) rotation matrix
+        theta = math.atan2(T[1, 0], T[0, 0])
         if twist:
-            return base.vex(scipy.linalg.logm(T))
+            return np.array([theta])
         else:
-            return scipy.linalg.logm(T)
+            return base.skew(theta)
     else:
         raise ValueError("Expect SO(2) or SE(2) matrix")
 # ---------------------------------------------------------------------------------------#
